@@ -13,7 +13,6 @@ import (
 	"go/token"
 	"go/types"
 	"sort"
-	"strings"
 )
 
 func objKey(o types.Object) string {
@@ -51,11 +50,17 @@ type condInfo struct {
 	kind string // "nonnil", "isnil", "is", "as", ""
 	obj  types.Object
 	arg  string // sentinel key or type
+	neg  bool   // the condition is the negation of the classified test
 }
 
 // classifyCond recognises error tests on a variable.
 func classifyCond(info *types.Info, e ast.Expr) condInfo {
 	e = ast.Unparen(e)
+	if u, ok := e.(*ast.UnaryExpr); ok && u.Op == token.NOT {
+		ci := classifyCond(info, u.X)
+		ci.neg = !ci.neg
+		return ci
+	}
 	switch x := e.(type) {
 	case *ast.BinaryExpr:
 		if x.Op == token.NEQ || x.Op == token.EQL {
@@ -156,43 +161,14 @@ func (f *Flat) ErrStatesFrom(A int, E types.Object) ErrStates {
 			}
 		}
 		if n.IsCond {
-			ci := classifyCond(info, n.Ast.(ast.Expr))
-			if ci.obj == E {
-				for _, e := range n.Succs {
-					tr := e.Label == 1
-					switch ci.kind {
-					case "nonnil":
-						if tr {
-							push(e.To, it.state)
+			cond := n.Ast.(ast.Expr)
+			if condMentions(info, cond, E) {
+				for _, w := range worldsFor(info, cond, E, it.state) {
+					mt, mf := eval3(info, cond, E, w)
+					for _, e := range n.Succs {
+						if (e.Label == 1 && mt) || (e.Label == 2 && mf) {
+							push(e.To, w)
 						}
-					case "isnil":
-						if !tr {
-							push(e.To, it.state)
-						}
-					case "is":
-						if tr {
-							if it.state == "any" || it.state == "is:"+ci.arg {
-								push(e.To, "is:"+ci.arg)
-							} else if strings.HasPrefix(it.state, "as:") {
-								push(e.To, "is:"+ci.arg)
-							}
-						} else if it.state != "is:"+ci.arg {
-							push(e.To, it.state)
-						}
-					case "isnot":
-						if !tr {
-							push(e.To, "is:"+ci.arg)
-						} else if it.state != "is:"+ci.arg {
-							push(e.To, it.state)
-						}
-					case "as":
-						if tr {
-							push(e.To, "as:"+ci.arg)
-						} else if it.state != "as:"+ci.arg {
-							push(e.To, it.state)
-						}
-					default:
-						push(e.To, it.state)
 					}
 				}
 				continue
@@ -342,4 +318,105 @@ func (f *Flat) GatedBy(site callSite, targets []int, tolerated ...string) (bool,
 		}
 	}
 	return true, -1, nil
+}
+
+// condMentions reports whether the condition contains an error test on E.
+func condMentions(info *types.Info, cond ast.Expr, E types.Object) bool {
+	found := false
+	ast.Inspect(cond, func(x ast.Node) bool {
+		if e, ok := x.(ast.Expr); ok {
+			if ci := classifyCond(info, e); ci.kind != "" && ci.obj == E {
+				found = true
+			}
+		}
+		return !found
+	})
+	return found
+}
+
+// worldsFor enumerates the abstract values E may have in the given state, refined by the
+// sentinels / types the condition mentions: "any" (none of the mentioned classes), "is:S", "as:T".
+func worldsFor(info *types.Info, cond ast.Expr, E types.Object, state string) []string {
+	if state != "any" {
+		return []string{state}
+	}
+	ws := []string{"any"}
+	seen := map[string]bool{}
+	ast.Inspect(cond, func(x ast.Node) bool {
+		if e, ok := x.(ast.Expr); ok {
+			ci := classifyCond(info, e)
+			if ci.obj == E && (ci.kind == "is" || ci.kind == "isnot" || ci.kind == "as") && ci.arg != "" {
+				k := "is:" + ci.arg
+				if ci.kind == "as" {
+					k = "as:" + ci.arg
+				}
+				if !seen[k] {
+					seen[k] = true
+					ws = append(ws, k)
+				}
+			}
+		}
+		return true
+	})
+	return ws
+}
+
+// eval3 evaluates a boolean condition in world w of E: may it be true, may it be false.
+// In every world E is non-nil (the nil case carries no obligation). Atoms not about E are unknown.
+func eval3(info *types.Info, e ast.Expr, E types.Object, w string) (mayTrue, mayFalse bool) {
+	e = ast.Unparen(e)
+	switch x := e.(type) {
+	case *ast.UnaryExpr:
+		if x.Op == token.NOT {
+			t, f := eval3(info, x.X, E, w)
+			return f, t
+		}
+	case *ast.BinaryExpr:
+		switch x.Op {
+		case token.LAND:
+			at, af := eval3(info, x.X, E, w)
+			bt, bf := eval3(info, x.Y, E, w)
+			return at && bt, af || (at && bf)
+		case token.LOR:
+			at, af := eval3(info, x.X, E, w)
+			bt, bf := eval3(info, x.Y, E, w)
+			return at || (af && bt), af && bf
+		}
+	}
+	ci := classifyCond(info, e)
+	if ci.kind == "" || ci.obj != E {
+		return true, true
+	}
+	var t, f bool
+	switch ci.kind {
+	case "nonnil":
+		t, f = true, false
+	case "isnil":
+		t, f = false, true
+	case "is", "isnot":
+		switch {
+		case w == "is:"+ci.arg:
+			t, f = true, false
+		case w == "any":
+			t, f = false, true
+		default:
+			t, f = true, true
+		}
+		if ci.kind == "isnot" {
+			t, f = f, t
+		}
+	case "as":
+		switch {
+		case w == "as:"+ci.arg:
+			t, f = true, false
+		case w == "any":
+			t, f = false, true
+		default:
+			t, f = true, true
+		}
+	}
+	if ci.neg {
+		t, f = f, t
+	}
+	return t, f
 }
